@@ -97,3 +97,75 @@ Definition c10_file_bad (c : option (N * N * N * N) * option (N * N * N * N) * N
 Definition c10_agree_bad (c : option (N * N * N * N) * option (N * N * N * N) * N) : bool :=
   let '(v, s, cls) := c in
   (cls =? 0) && negb (agreeb {| validated := option_map pkey_of v; signed := option_map pkey_of s |}).
+
+(* ---------------------------------------------------------------------------------------------
+   The configuration dimension: the operator's key deny list (Config.DenyTrustData, fingerprints of
+   the SSH wire form of a key).  A fingerprint exists only for keys that HAVE an SSH wire form:
+   ssh.NewPublicKey refuses ECDSA P-224, X25519 and every unknown type - exactly the weak / unknown
+   keys.  So a look-up has three results, and where in the pipeline it runs matters.
+   [fp] = the fingerprint of the submitted key (an identity), None = the key has no SSH form. *)
+Record kconfig := { deny_list : list N }.
+Inductive deny_res := NotDenied | Denied | NoFingerprint.
+(* the look-up as a helper on top of getKeyFingerprint does it: nothing to do for an empty list *)
+Definition deny_lookup (cfg : kconfig) (fp : option N) : deny_res :=
+  match deny_list cfg with
+  | nil => NotDenied
+  | l => match fp with
+         | None => NoFingerprint
+         | Some f => if existsb (N.eqb f) l then Denied else NotDenied
+         end
+  end.
+
+(* The issuing pipeline under a configuration.  [consults]: whether this path looks at the deny list at
+   all when it issues (the code as it stands only consults it when a certificate is PRESENTED; the bit
+   is observed per path on every run).  The look-up runs AFTER the strength check, on the key that is
+   about to be signed: a refused key never reaches it. *)
+Definition pipeline_cfg (consults : bool) (cfg : kconfig) (p : kpath) (v s : option pkey) (fp : option N) : outcome :=
+  match pipeline_of p v s with
+  | Signed k =>
+      if consults then
+        match deny_lookup cfg fp with
+        | NotDenied => Signed k
+        | Denied => ClientError           (* 403 *)
+        | NoFingerprint => ServerError    (* a strong key without an SSH form: cannot happen for RSA / P-256.. / Ed25519 *)
+        end
+      else Signed k
+  | o => o
+  end.
+
+(* the other order: look-up first, failure of the fingerprint helper answered like an internal error *)
+Definition pipeline_deny_first (cfg : kconfig) (p : kpath) (v s : option pkey) (fp : option N) : outcome :=
+  match v with
+  | None => ClientError
+  | Some _ =>
+      match deny_lookup cfg fp with
+      | NoFingerprint => ServerError
+      | Denied => ClientError
+      | NotDenied => pipeline_of p v s
+      end
+  end.
+
+(* correspondence: (path, parsed key as (kind, a, b) or None, fingerprint identity or None, deny list,
+   consults bit of the path, observed class 0 issued / 1 client error / 2 other) *)
+Definition kpath_of (n : N) : kpath :=
+  if n =? 0 then KSsh else if n =? 1 then KX509 else if n =? 2 then KKube else if n =? 3 then KRole
+  else if n =? 4 then KRefresh else KAws.
+Definition cfg_case := (N * option (N * N * N) * option N * list N * bool * N)%type.
+Definition cfg_model (c : cfg_case) : outcome :=
+  let '(p, k, fp, dl, consults, _) := c in
+  let v := option_map (fun d => let '(kind, a, b) := d in (1, desc_of kind a b)) k in
+  pipeline_cfg consults {| deny_list := dl |} (kpath_of p) v v fp.
+Definition c10_cfg_bad (c : cfg_case) : bool :=
+  let '(_, _, _, _, _, cls) := c in
+  match cfg_model c with
+  | Signed _ => negb (cls =? 0) && negb (cls =? 1)     (* Ed25519 without an Ed25519 CA: 4xx *)
+  | ClientError => negb (cls =? 1)
+  | ServerError => negb (cls =? 2)
+  end.
+(* the property's own predicate on the observation: the submitted key is weak / unknown / unparsable and
+   the answer is not a client error (a certificate, a 5xx, a panic) *)
+Definition cfg_weak (c : cfg_case) : bool :=
+  let '(_, k, _, _, _, _) := c in
+  match k with None => true | Some (kind, a, b) => negb (validate (desc_of kind a b)) end.
+Definition c10_cfg_violates (c : cfg_case) : bool :=
+  let '(_, _, _, _, _, cls) := c in cfg_weak c && negb (cls =? 1).
